@@ -1676,10 +1676,7 @@ def rule_optable(repo, backend):
             ok = True
             if want == 'Concat':
                 # values in argument order (first argument = most significant, as in SV {a, b})
-                ok = len(args) == 1 and args[0] in ('[s.visit(c) for c in node.args]', 'list(map(s.visit, node.args))')
-                if not ok:
-                    al_ok = re.fullmatch(r"\[s\.visit\((\w+)\) for \1 in node\.args\]", args[0]) if args else None
-                    ok = bool(al_ok)
+                ok = len(args) == 1 and _visits_in_order(got[5].value.args[0], 'node.args')
             else:
                 bind = dict(zip(flds, args))
                 ok = bind.get('value') == 's.visit(node.args[0])' and 'node.args[1]' in (bind.get('nbits') or '') \
@@ -1756,6 +1753,58 @@ def _is_loopcall(e):
     return isinstance(e, ast.Call) and isinstance(e.func, ast.Name) and e.func.id == '__loop__'
 
 
+class Elementwise:
+    """`one value per item of `it` (bound to `target`), in iteration order`, whatever the spelling:
+    comprehension / generator / list(...) / map(f, it) / append-or-extend loop (as summarised by SymExec)"""
+    def __init__(self, it, target, elt, conds=(), flat=False):
+        self.it, self.target, self.elt, self.conds, self.flat = it, target, elt, list(conds), flat
+        self.names = [x.strip() for x in target.strip('()').split(',')]
+
+
+def elementwise(e):
+    """Elementwise view of a list-valued symbolic expression, or None"""
+    if isinstance(e, ast.Call) and isinstance(e.func, ast.Name) and e.func.id in ('list', 'tuple') and len(e.args) == 1:
+        return elementwise(e.args[0])
+    if isinstance(e, (ast.ListComp, ast.GeneratorExp)):
+        if len(e.generators) == 1:
+            g = e.generators[0]
+            return Elementwise(g.iter, norm(g.target), e.elt, g.ifs)
+        if len(e.generators) == 2 and not e.generators[0].ifs and not e.generators[1].ifs and \
+                norm(e.elt) == norm(e.generators[1].target):
+            # [ l for x in it for l in f(x) ]  ==  flattened f(x)
+            g = e.generators[0]
+            return Elementwise(g.iter, norm(g.target), e.generators[1].iter, (), flat=True)
+        return None
+    if isinstance(e, ast.Call) and isinstance(e.func, ast.Name) and e.func.id == 'map' and len(e.args) == 2:
+        fn, it = e.args
+        if isinstance(fn, ast.Lambda):
+            tg = ', '.join(a.arg for a in fn.args.args)
+            return Elementwise(it, f"({tg})" if len(fn.args.args) > 1 else tg, fn.body)
+        return Elementwise(it, '_x', ast.Call(func=fn, args=[_mk_name('_x')], keywords=[]))
+    if isinstance(e, ast.Call) and isinstance(e.func, ast.Name) and e.func.id == 'sum' and len(e.args) == 2 and norm(e.args[1]) == '[]':
+        ew = elementwise(e.args[0])
+        if ew is not None and not ew.flat:
+            ew.flat = True
+            return ew
+        return None
+    if isinstance(e, ast.BinOp) and isinstance(e.op, ast.Add) and isinstance(e.left, ast.List) and not e.left.elts:
+        return elementwise(e.right)
+    if _is_loopcall(e) and len(e.args) == 4:
+        it, tgt, init, step = e.args
+        if not (isinstance(init, ast.List) and not init.elts):
+            return None
+        conds = []
+        while isinstance(step, ast.IfExp) and re.fullmatch(r"__carried__\('\w+'\)", norm(step.orelse)):
+            conds.append(step.test)
+            step = step.body
+        if isinstance(step, ast.BinOp) and isinstance(step.op, ast.Add) and re.fullmatch(r"__carried__\('\w+'\)", norm(step.left)):
+            rt_ = step.right
+            if isinstance(rt_, ast.List) and len(rt_.elts) == 1:
+                return Elementwise(it, tgt.value, rt_.elts[0], conds)
+            return Elementwise(it, tgt.value, rt_, conds, flat=True)
+    return None
+
+
 def block_layout(lk, vis, name, r, header_ok, what, _after=None, _depth=0):
     """check that visit_CombUpblk / visit_SeqUpblk returns [header] + statements in source order + ['end']"""
     res = lk.find(vis, name, _after)
@@ -1796,12 +1845,9 @@ def block_layout(lk, vis, name, r, header_ok, what, _after=None, _depth=0):
             r.bad(c.mod, fq(c, f), cons, "block must be closed by `end` after the last statement", o.node.lineno)
             continue
         mids = segs[1:-1]
-        okm = len(mids) == 1 and _is_loopcall(mids[0])
-        if okm:
-            it, tgt, before, new = mids[0].args
-            tg = tgt.value
-            okm = norm(it) == 'node.body' and norm(before) == '[]' and \
-                norm(new) in (f"__carried__('body') + s.visit({tg})", f"__carried__('body') + [s.visit({tg})]")
+        ew = elementwise(mids[0]) if len(mids) == 1 else None
+        okm = ew is not None and not ew.conds and norm(ew.it) == 'node.body' and len(ew.names) == 1 and \
+            norm(ew.elt) == f"s.visit({ew.names[0]})"
         if not okm:
             r.bad(c.mod, fq(c, f), cons, "statements of the block are not emitted once each in source order between the "
                   "header and `end` (reordered / reversed / skipped statements change blocking-assignment semantics)",
@@ -1949,12 +1995,16 @@ def rule_assign(repo, backend):
         ex, outs = sym_run(fn, rename=False)
         rets = [o for o in outs if o.kind == 'return' and o.value is not None]
         p0 = fn.args.args[0].arg
-        if len(rets) != 1 or not isinstance(rets[0].value, ast.ListComp) or len(rets[0].value.generators) != 1:
-            raise AnalysisError(f"{fname}: expected a single filtering comprehension")
-        g = rets[0].value.generators[0]
-        x = norm(g.target)
-        if norm(g.iter) != f"{p0}.get_update_block_order()" or norm(rets[0].value.elt) != x:
-            r.bad(um, fname, norm(rets[0].value), "blocks must be listed in get_update_block_order() order", fn.lineno)
+        ew = elementwise(rets[0].value) if len(rets) == 1 else None
+        if ew is None or ew.flat:
+            raise AnalysisError(f"{fname}: expected a single filtering comprehension / loop")
+
+        class _G:
+            pass
+        g = _G()
+        g.ifs, x = ew.conds, ew.names[0]
+        if norm(ew.it) != f"{p0}.get_update_block_order()" or norm(ew.elt) != x or len(ew.names) != 1:
+            r.bad(um, fname, norm(rets[0].value)[:160], "blocks must be listed in get_update_block_order() order", fn.lineno)
             continue
         sel = []
         for blk in (1, 2, 3):
@@ -1981,15 +2031,15 @@ def rule_assign(repo, backend):
         if o.kind != 'return' or o.value is None:
             continue
         v = o.value
-        if not (isinstance(v, ast.ListComp) and len(v.generators) == 1):
+        ew = elementwise(v)
+        if ew is None or ew.flat or ew.conds or len(ew.names) != 1:
             r.bad(c.mod, fq(c, f), norm(v)[:80], "visit_Assign must return one statement per target", o.node.lineno)
             continue
-        g = v.generators[0]
-        tname = norm(g.target)
-        if 'node.targets' not in norm(g.iter):
-            r.bad(c.mod, fq(c, f), norm(g.iter)[:80], "targets of the emitted assignments do not come from node.targets", o.node.lineno)
+        tname = ew.names[0]
+        if 'node.targets' not in norm(ew.it):
+            r.bad(c.mod, fq(c, f), norm(ew.it)[:80], "targets of the emitted assignments do not come from node.targets", o.node.lineno)
             continue
-        for var in to_variants(v.elt):
+        for var in to_variants(ew.elt):
             sk = var.skeleton()
             hs = [h.text for h in hole_list(var.parts)]
             for blocking in (True, False):
@@ -2694,12 +2744,16 @@ def rule_conn(repo, backend):
     if not conn_calls:
         raise AnalysisError("_gen_metadata: connections metadata not found")
     for o, val in conn_calls[:1]:
-        ok = isinstance(val, ast.ListComp) and len(val.generators) == 1
+        ew = elementwise(val)
+        ok = ew is not None and not ew.flat and not ew.conds and len(ew.names) == 1
         msg = "connections must be generated in get_connect_order() order as (writer expr, reader expr) pairs"
         if ok:
-            g = val.generators[0]
-            x = norm(g.target)
-            elt = val.elt
+            class _G:
+                pass
+            g = _G()
+            g.iter = ew.it
+            x = ew.names[0]
+            elt = ew.elt
             ok = isinstance(elt, ast.Tuple) and len(elt.elts) == 2 and \
                 [norm(e.args[1]) if isinstance(e, ast.Call) and len(e.args) == 2 else None for e in elt.elts] == [f"{x}[0]", f"{x}[1]"] \
                 and all(isinstance(e, ast.Call) and norm(e.func) == 'gen_signal_expr' for e in elt.elts)
@@ -2729,21 +2783,39 @@ def rule_conn(repo, backend):
     # ---- translate_connections -> hook -> text
     top = backend_class(repo, backend)
     c, f = lk.find(top, 'translate_connections')
-    calls = [n for n in ast.walk(f) if isinstance(n, ast.Call) and isinstance(n.func, ast.Attribute) and n.func.attr == 'rtlir_tr_connection']
-    loops = [n for n in ast.walk(f) if isinstance(n, ast.For) and isinstance(n.target, ast.Tuple) and len(n.target.elts) == 2]
-    if len(calls) != 1 or not loops:
-        raise AnalysisError("translate_connections: shape not recognised")
-    wname, rname = [norm(e) for e in loops[0].target.elts]
-    args = calls[0].args
-    okt = len(args) == 2 and all(isinstance(a, ast.Call) and a.func.attr == 'rtlir_signal_expr_translation' for a in args) and \
-        norm(args[0].args[0]) == wname and norm(args[1].args[0]) == rname and \
-        [norm(a.args[2]) if len(a.args) > 2 else None for a in args] == ["'writer'", "'reader'"]
+    ex, outs = sym_run(f)
+    found = []
+    for o in outs:
+        exprs = [val for t, op, val, cs in o.stores] + [cl for cl, cs in o.calls] + ([o.value] if o.value is not None else []) + \
+            list(o.env.values())
+        for e in exprs:
+            for n in ast.walk(e):
+                ew = elementwise(n) if isinstance(n, (ast.Call, ast.ListComp, ast.GeneratorExp, ast.BinOp)) else None
+                if ew is not None and isinstance(ew.elt, ast.Call) and isinstance(ew.elt.func, ast.Attribute) \
+                        and ew.elt.func.attr == 'rtlir_tr_connection':
+                    found.append(ew)
+        if found:
+            break
+    if not found:
+        raise AnalysisError("translate_connections: no `one rtlir_tr_connection per connection` construction found")
+    ew = found[0]
+    args = ew.elt.args
+    # the iteration binds (writer, reader) in the order the pairs were generated
+    okt = len(ew.names) in (1, 2) and not ew.conds and not ew.flat and len(args) == 2 and not ew.elt.keywords
+    if okt:
+        # the pair is bound either to two names or to one name indexed [0] / [1]
+        wname, rname = ew.names if len(ew.names) == 2 else (f"{ew.names[0]}[0]", f"{ew.names[0]}[1]")
+        okt = all(isinstance(a, ast.Call) and isinstance(a.func, ast.Attribute) and a.func.attr == 'rtlir_signal_expr_translation'
+                  and a.args for a in args) and \
+            norm(args[0].args[0]) == wname and norm(args[1].args[0]) == rname and \
+            [norm(a.args[2]) if len(a.args) > 2 else None for a in args] == ["'writer'", "'reader'"] and \
+            'reversed' not in norm(ew.it) and 'sorted' not in norm(ew.it)
     cons = f"rtlir_tr_connection({', '.join(norm(a)[:60] for a in args)})"
     if okt:
         r.ok(c.mod, fq(c, f), cons)
     else:
         r.bad(c.mod, fq(c, f), cons, "the hook must receive (translation of the writer with status 'writer', translation of the "
-              "reader with status 'reader')", calls[0].lineno)
+              "reader with status 'reader') for every (writer, reader) pair, in order", ew.elt.lineno if hasattr(ew.elt, 'lineno') else f.lineno)
     hc, hf = lk.find(top, 'rtlir_tr_connection')
     ps = [a.arg for a in hf.args.args][1:]
     ex, outs = sym_run(hf)
@@ -3247,12 +3319,13 @@ def _check_struct_instance(r, cls, fdef, what):
         if o.kind != 'return' or o.value is None:
             continue
         for v in to_variants(o.value, o.conds):
-            joins = [h for h in hole_list(v.parts) if h.kind == 'join']
-            loops = [h.expr for h in joins if _is_loopcall(h.expr)]
-            if not loops:
+            joins = [h for h in hole_list(v.parts) if h.kind == 'join' and elementwise(h.expr) is not None]
+            if not joins:
                 continue
             found = True
-            it, tgt, init, step = loops[0].args
+            ew = elementwise(joins[0].expr)
+            it = ew.it
+            step = _mk_name('__carried__()') if not ew.conds and not ew.flat else _mk_name('filtered')
             sk = v.skeleton()
             cons = f"{what}: {sk} fields {norm(it)[:60]}"
             probs = []
@@ -3273,9 +3346,18 @@ def _check_struct_instance(r, cls, fdef, what):
     if not found:
         raise AnalysisError(f"{fq(cls, fdef)}: field loop of the struct literal not found")
     # packed array helper
-    inner = [n for n in _nested_funcs(fdef) if any(isinstance(x, ast.For) for x in ast.walk(n))]
+    class _It:
+        def __init__(self, target, it, lineno, body, n_app):
+            self.target, self.iter, self.lineno, self.body, self.n_app = target, it, lineno, body, n_app
+    inner = [n for n in _nested_funcs(fdef)]
     for g in inner:
-        fors = [x for x in walk_no_nested(g) if isinstance(x, ast.For)]
+        fors = []
+        for x in walk_no_nested(g):
+            if isinstance(x, ast.For):
+                apps_ = [y for y in ast.walk(x) if isinstance(y, ast.Call) and isinstance(y.func, ast.Attribute) and y.func.attr == 'append']
+                fors.append(_It(x.target, x.iter, x.lineno, x, len(apps_)))
+            elif isinstance(x, (ast.ListComp, ast.GeneratorExp)) and len(x.generators) == 1 and 'range(' in norm(x.generators[0].iter):
+                fors.append(_It(x.generators[0].target, x.generators[0].iter, x.lineno, x.elt, 1))
         for lp in fors:
             ndim = None
             mm = re.search(r"range\((\w+)\[0\]", norm(lp.iter))
@@ -3284,8 +3366,8 @@ def _check_struct_instance(r, cls, fdef, what):
             cons = f"{what}.{g.name}: for {norm(lp.target)} in {norm(lp.iter)}"
             if ndim is None:
                 raise AnalysisError(f"{fq(cls, fdef)}.{g.name}: packed-array loop not recognised: {norm(lp.iter)}")
-            apps = [x for x in ast.walk(lp) if isinstance(x, ast.Call) and isinstance(x.func, ast.Attribute) and x.func.attr == 'append']
-            uses_i = any(f"[{norm(lp.target)}]" in norm(x) for x in ast.walk(lp) if isinstance(x, ast.Subscript))
+            apps = [None] * lp.n_app
+            uses_i = any(f"[{norm(lp.target)}]" in norm(x) for x in ast.walk(lp.body) if isinstance(x, ast.Subscript))
             if not _descending_range(lp.iter, ndim):
                 r.bad(mod, fq(cls, fdef), cons, "elements of a packed array must be concatenated from index n-1 down to 0 "
                       "(element 0 is the least significant part of the packed value)", lp.lineno)
@@ -3295,6 +3377,13 @@ def _check_struct_instance(r, cls, fdef, what):
                 r.ok(mod, fq(cls, fdef), cons)
                 n_ok += 1
     return n_ok
+
+
+def _visits_in_order(e, seq_text):
+    """e == [ s.visit(x) for x in <seq_text> ] in any spelling (comprehension, map, append loop)"""
+    ew = elementwise(e)
+    return ew is not None and not ew.conds and not ew.flat and len(ew.names) == 1 and norm(ew.it) == seq_text and \
+        norm(ew.elt) == f"s.visit({ew.names[0]})"
 
 
 def rule_layout(repo, backend):
@@ -3319,12 +3408,11 @@ def rule_layout(repo, backend):
             hl = hole_list(v.parts)
             sk = v.skeleton()
             cons = f"visit_StructInst -> {sk} {[h.text[:50] for h in hl]}"
-            src_ok = lambda t: t in ('list(map(s.visit, node.values))', '[s.visit(v) for v in node.values]') or \
-                re.fullmatch(r"\[s\.visit\((\w+)\) for \1 in node\.values\]", t) is not None
-            if sk == '{⟨0⟩}' and hl[0].kind == 'join' and hl[0].spec.strip() == ',' and src_ok(hl[0].text):
+            if sk == '{⟨0⟩}' and hl[0].kind == 'join' and hl[0].spec.strip() == ',' and _visits_in_order(hl[0].expr, 'node.values'):
                 r.ok(c.mod, fq(c, f), cons)
                 n += 1
-            elif sk == '⟨0⟩' and hl[0].kind == 'expr' and re.fullmatch(r"(list\(map\(s\.visit, node\.values\)\)|\[.*node\.values\])\[0\]", hl[0].text):
+            elif sk == '⟨0⟩' and hl[0].kind == 'expr' and isinstance(hl[0].expr, ast.Subscript) and norm(hl[0].expr.slice) == '0' \
+                    and _visits_in_order(hl[0].expr.value, 'node.values'):
                 r.ok(c.mod, fq(c, f), cons, nontrivial=False)
             else:
                 r.bad(c.mod, fq(c, f), cons, "a struct built from field values must be emitted as { v1, v2, ... } in field order "
@@ -3337,8 +3425,7 @@ def rule_layout(repo, backend):
             hl = hole_list(v.parts)
             sk = v.skeleton()
             cons = f"visit_Concat -> {sk} {[h.text[:50] for h in hl]}"
-            if sk == '{⟨0⟩}' and hl[0].kind == 'join' and hl[0].spec.strip() == ',' and \
-                    re.fullmatch(r"\[s\.visit\((\w+)\) for \1 in node\.values\]|list\(map\(s\.visit, node\.values\)\)", hl[0].text):
+            if sk == '{⟨0⟩}' and hl[0].kind == 'join' and hl[0].spec.strip() == ',' and _visits_in_order(hl[0].expr, 'node.values'):
                 r.ok(c.mod, fq(c, f), cons)
                 n += 1
             else:
@@ -3773,10 +3860,19 @@ def rule_index_order(repo):
             if eff is None or eff[1] is not f:
                 continue
             for g in [f] + _nested_funcs(f):
-                for lp in [x for x in walk_no_nested(g) if isinstance(x, ast.For)]:
+                class _Lp:
+                    def __init__(self, node, target, it):
+                        self.node, self.target, self.iter, self.lineno = node, target, it, node.lineno
+                lps = []
+                for x in walk_no_nested(g):
+                    if isinstance(x, ast.For):
+                        lps.append(_Lp(x, x.target, x.iter))
+                    elif isinstance(x, (ast.ListComp, ast.GeneratorExp)) and len(x.generators) == 1:
+                        lps.append(_Lp(x, x.generators[0].target, x.generators[0].iter))
+                for lp in lps:
                     if not (isinstance(lp.iter, ast.Call) and norm(lp.iter.func) in ('range', 'reversed')):
                         continue
-                    for call in [x for x in ast.walk(lp) if isinstance(x, ast.Call)]:
+                    for call in [x for x in ast.walk(lp.node) if isinstance(x, ast.Call)]:
                         nm = _callee_name(call)
                         is_self = (g is f and isinstance(call.func, ast.Attribute) and nm == f.name) or \
                                   (g is not f and isinstance(call.func, ast.Name) and nm == g.name)
@@ -3987,6 +4083,106 @@ def rule_wire_forms(repo):
                 r.bad(c.mod, fq(c, f), cons, "declares the packed wire and the per-field wires of a struct / array signal "
                       "(port_wire_gen) but never connects them (no port_connection_gen): a block that writes the whole signal "
                       "and a reader of one field (or vice versa) are not connected in the emitted Verilog", f.lineno)
-    r.evaluations = n
-    r.require_floor(2)
+    # ---- record markers: the wire-declaration and the connection pipelines pass records (dicts) through several stages;
+    # a record carries the marker "present" when it must be emitted even for scalar shapes (packed form of a struct).
+    # (A) every stage that rebuilds a record forwards the marker; (B) in every stage that filters both kinds of
+    # records, a connection that is emitted refers to a wire that is declared (same own-dimension disjuncts, marker
+    # honoured on the wire side whenever it is on the connection side).
+    MARK = 'present'
+    shapes = set()
+    ymods = [repo.mod(rel) for rel in YS_S[1:]]
+    for m_ in ymods:
+        for d in [x for x in ast.walk(m_.tree) if isinstance(x, ast.Dict)]:
+            ks = [k.value for k in d.keys if isinstance(k, ast.Constant) and isinstance(k.value, str)]
+            if MARK in ks and len(ks) == len(d.keys):
+                shapes.add(frozenset(ks) - {MARK})
+    if len(shapes) < 2:
+        raise AnalysisError(f"R-C12-wire-forms: record kinds carrying the '{MARK}' marker not found ({sorted(map(sorted, shapes))})")
+
+    def kind_of(keys):
+        for sh in shapes:
+            if keys and keys <= sh and len(keys) >= min(3, len(sh)):
+                return sh
+        return None
+
+    def is_mark_test(e, rec):
+        return isinstance(e, ast.Compare) and len(e.ops) == 1 and isinstance(e.ops[0], ast.In) and \
+            isinstance(e.left, ast.Constant) and e.left.value == MARK and norm(e.comparators[0]) == rec
+    n_rebuild = n_filter = 0
+    for name, (c, f) in sorted(lk.effective_methods(top).items()):
+        if not c.mod.rel.startswith(YS_DIR):
+            continue
+        ctors = {}
+        for g in _nested_funcs(f):
+            ksets = [frozenset(k.value for k in d.keys if isinstance(k, ast.Constant)) - {MARK}
+                     for d in ast.walk(g) if isinstance(d, ast.Dict) and d.keys]
+            ksets = [k for k in ksets if k in shapes]
+            if ksets:
+                ctors[g.name] = ksets[0]
+        filters = {}
+        for lp in [x for x in walk_no_nested(f) if isinstance(x, ast.For) and isinstance(x.target, ast.Name)]:
+            rec = lp.target.id
+            reads = {x.slice.value for x in ast.walk(lp) if isinstance(x, ast.Subscript) and isinstance(x.value, ast.Name)
+                     and x.value.id == rec and isinstance(x.slice, ast.Constant) and isinstance(x.slice.value, str)} - {MARK}
+            sh = kind_of(frozenset(reads))
+            if sh is None:
+                continue
+            body_nodes = [x for st in lp.body for x in ast.walk(st)]
+            produced = [x for x in body_nodes if isinstance(x, ast.Dict) and x.keys and
+                        frozenset(k.value for k in x.keys if isinstance(k, ast.Constant)) - {MARK} == sh]
+            produced += [x for x in body_nodes if isinstance(x, ast.Call) and isinstance(x.func, ast.Name) and ctors.get(x.func.id) == sh]
+            tests = [x for x in body_nodes if is_mark_test(x, rec)]
+            kind_txt = 'wire record' if 'n_dim' in sh else 'connection record'
+            if produced:
+                n_rebuild += 1
+                lit = any(isinstance(x, ast.Dict) and any(isinstance(k, ast.Constant) and k.value == MARK for k in x.keys) for x in produced)
+                sets = [x for x in body_nodes if isinstance(x, ast.Assign) and len(x.targets) == 1 and isinstance(x.targets[0], ast.Subscript)
+                        and isinstance(x.targets[0].slice, ast.Constant) and x.targets[0].slice.value == MARK]
+                flag_names = {t.targets[0].id for t in body_nodes if isinstance(t, ast.Assign) and len(t.targets) == 1
+                              and isinstance(t.targets[0], ast.Name) and is_mark_test(t.value, rec)}
+                guarded = [x for x in sets if any(g_.kind == 'if' and g_.polarity is True and
+                                                  (is_mark_test(g_.test, rec) or norm(g_.test) in flag_names) for g_ in guards_of(x))]
+                cons = f"{name}: {kind_txt}s of `{rec}` rebuilt ({norm(produced[0])[:70]})"
+                if (tests and guarded) or (lit and tests):
+                    r.ok(c.mod, fq(c, f), cons + f", '{MARK}' forwarded")
+                else:
+                    r.bad(c.mod, fq(c, f), cons, f"this stage builds new {kind_txt}s from the incoming ones without forwarding the "
+                          f"'{MARK}' marker; the next stage emits a scalar (non-array) record only when it is marked, so for a "
+                          f"scalar sub-component / interface with a struct port the "
+                          f"{'declaration of the packed wire is dropped while the assigns through it remain (undeclared net)' if 'n_dim' in sh else 'assigns between the packed wire and the flat ports are dropped'}",
+                          lp.lineno)
+            # filters: `if <own dims> or <record dims/index> or 'present' in rec`
+            for iff in [x for x in body_nodes if isinstance(x, ast.If)]:
+                disj = iff.test.values if isinstance(iff.test, ast.BoolOp) and isinstance(iff.test.op, ast.Or) else [iff.test]
+                if not any(is_mark_test(x, rec) for x in disj) and not any(
+                        isinstance(x, ast.Name) and norm(reaching_value(x.id, iff) or x) in (f"{rec}['n_dim']", f"{rec}['idx']") for x in disj):
+                    continue
+                own = set()
+                for x in disj:
+                    if is_mark_test(x, rec):
+                        own.add('<marker>')
+                        continue
+                    t = norm(x)
+                    rv = reaching_value(x.id, iff) if isinstance(x, ast.Name) else None
+                    src = norm(rv) if rv is not None else t
+                    own.add('<record>' if re.fullmatch(rf"{rec}\[.*\]", src) else t)
+                filters.setdefault('wire' if 'n_dim' in sh else 'conn', []).append((own, iff))
+        if filters.get('conn'):
+            n_filter += 1
+            cown, ciff = filters['conn'][0]
+            if not filters.get('wire'):
+                r.ok(c.mod, fq(c, f), f"{name}: connections filtered by {sorted(cown)}, wires declared unconditionally", nontrivial=False)
+            else:
+                wown, wiff = filters['wire'][0]
+                cons = f"{name}: declare if {norm(wiff.test)} / connect if {norm(ciff.test)}"
+                missing = cown - wown
+                if missing:
+                    r.bad(c.mod, fq(c, f), cons, f"a connection is emitted under {sorted(missing)} although the wire it goes through "
+                          f"is not declared under that condition (undeclared implicit 1-bit net)", wiff.lineno)
+                else:
+                    r.ok(c.mod, fq(c, f), cons)
+    if n_rebuild < 2 or n_filter < 3:
+        raise AnalysisError(f"R-C12-wire-forms: record pipeline not recognised ({n_rebuild} rebuild stages, {n_filter} filter stages)")
+    r.evaluations = n + n_rebuild + n_filter
+    r.require_floor(2 + 2 + 3)
     return r
